@@ -20,6 +20,7 @@ REPLAYS = os.path.join(VERIF, 'replays')
 EVIDENCE = os.environ.get('VERIF_EVIDENCE_DIR') or os.path.join(VERIF, 'evidence')
 KNOWN_FILE = os.path.join(VERIF, 'KNOWN_FINDINGS.txt')
 WORKERS = int(os.environ.get('VERIF_WORKERS', '16'))
+SET_CAP = 250000     # exact distinct-counting stops here (reported as >=)
 
 COMPONENTS = {
     'real': [
@@ -52,6 +53,10 @@ def bootstrap():
     src = os.path.join(REPO, 'src')
     if src not in sys.path[:1]:
         sys.path.insert(0, src)
+    # locks created by package code are simulated (engine B); outside a
+    # simulated run they behave like the real thing
+    from . import sched
+    sched.install_lock_factory(src)
     import DocumentTemplate
     import TreeDisplay
     for m in (DocumentTemplate, TreeDisplay):
@@ -191,7 +196,9 @@ def worker(modname, base, lo, hi, tier, deadline):
             if isinstance(v, (int, float)):
                 agg.extra[k] = agg.extra.get(k, 0) + v
             elif isinstance(v, (set, frozenset)):
-                agg.extra.setdefault(k, set()).update(v)
+                cur = agg.extra.setdefault(k, set())
+                if len(cur) < SET_CAP:
+                    cur.update(v)
         h = chash(case)
         agg.distinct.add(h)
         for nt in res.get('nontrivial', ()):
@@ -335,7 +342,9 @@ def run_check(mod, tier):
         tot.distinct |= r.get('distinct', set())
         for k, v in r.get('extra', {}).items():
             if isinstance(v, set):
-                tot.extra.setdefault(k, set()).update(v)
+                cur = tot.extra.setdefault(k, set())
+                if len(cur) < SET_CAP * 8:
+                    cur.update(v)
             else:
                 tot.extra[k] = tot.extra.get(k, 0) + v
         if len(tot.samples) < 3:
